@@ -15,7 +15,7 @@ MUX = {
         title="bytes intact, in order, exactly once, no cross-talk",
         mc=dict(quick=["MC_Core_q", "MC_Flush_q"], thorough=["MC_Core", "MC_CoreAny_q", "MC_Open", "MC_Flush"]),
         needs=["AWrite", "ARead", "TRecv", "TSend"],
-        sims=dict(quick=[("pair", 120, 90), ("all", 40, 110)], thorough=[("pair", 2500, 140), ("all", 1200, 160), ("open", 800, 140)]),
+        sims=dict(quick=[("pair", 120, 90), ("all", 40, 110), ("open", 60, 90)], thorough=[("pair", 2500, 140), ("all", 1200, 160), ("open", 800, 140)]),
         nontrivial=lambda r: r.get("ev") == "read" and r.get("res") == "data",
         rule="a trace counts when it contains at least one read that returned data",
     ),
